@@ -571,6 +571,15 @@ def conflict_suite(tier, seed):
             d["endpoints"].append(mk_ep("dup", "s", nw, rng, Alloc(rng, start=0x4000_0000)))
             d["connections"].append({"src": "dup", "dst": "router", "dst_idx": [0, 0], "dst_dir": "East"})
             out.append((d, {"topo": "conflict", "defect": "xy-same-coordinate", "expect": "reject"}))
+        # the same through an endpoint's `xy_id_offset`: a boundary endpoint West of router [0,0] shifted by (+1, 0) lands
+        # on (0,0), the identity of the endpoint on that router's local port (uniqueness is about the FINAL identities)
+        for nw in (False, True):
+            d, _ = mesh(rng, 2, 2, "XY", nw, force_dir=True)
+            e = mk_ep("dup", "s", nw, rng, Alloc(rng, start=0x4000_0000))
+            e["xy_id_offset"] = {"x": 1, "y": 0}
+            d["endpoints"].append(e)
+            d["connections"].append({"src": "dup", "dst": "router", "dst_idx": [0, 0], "dst_dir": "West"})
+            out.append((d, {"topo": "conflict", "defect": "xy-same-coordinate", "expect": "reject", "via": "xy_id_offset"}))
     # an endpoint connected to TWO routers (its interface has one port only): whatever floogen does with it, an accepted
     # description must not declare link signals that lack their driver or reader
     for algo in ("ID", "SRC"):
